@@ -164,7 +164,16 @@ func keep(m protoreflect.Message, t maskTree, dropAll bool) {
 			m.Clear(fd)
 			return true
 		}
-		if len(sub) > 0 && fd.Kind() == protoreflect.MessageKind && !fd.IsList() && !fd.IsMap() {
+		// a path continuing below a map, a repeated scalar or a scalar selects that field whole; below a
+		// repeated message field it applies to every element
+		switch {
+		case len(sub) == 0 || fd.IsMap() || fd.Message() == nil:
+		case fd.IsList():
+			l := v.List()
+			for i := 0; i < l.Len(); i++ {
+				keep(l.Get(i).Message(), sub, false)
+			}
+		default:
 			keep(v.Message(), sub, false)
 		}
 		return true
@@ -191,6 +200,7 @@ type pullStream struct {
 	// has subscribed (as with real gRPC); a seeded stream proves it by delivering the seed, an updates_only
 	// stream only by delivering its first message: until then an update may legitimately be missed.
 	established bool
+	lastSeen    proto.Message // the last message delivered (seed included)
 }
 
 type streamMsg struct {
@@ -224,6 +234,7 @@ type session struct {
 	sid     sessionID
 	pokes   []reflect.Value // model-level writers of the resource (pairs only)
 
+	noSeedWait bool
 }
 
 func txt(m proto.Message) string {
@@ -304,21 +315,17 @@ func setMask(m protoreflect.Message, name string, mask *fieldmaskpb.FieldMask) {
 	}
 }
 
-func (s *session) randMask(md protoreflect.MessageDescriptor, nilP int) *fieldmaskpb.FieldMask {
+func (s *session) randMask(md protoreflect.MessageDescriptor, nilP int, nested bool) *fieldmaskpb.FieldMask {
 	if s.r.Intn(100) < nilP {
 		return nil
 	}
 	if s.r.Intn(15) == 0 {
 		return &fieldmaskpb.FieldMask{}
 	}
+	// read masks come from the path tree (nested, through repeated messages); update masks stay top-level
 	paths := s.g.TopPaths(md, 2)
-	// sometimes descend one level through a singular message field
-	for i, p := range paths {
-		fd := md.Fields().ByName(protoreflect.Name(p))
-		if fd != nil && fd.Kind() == protoreflect.MessageKind && !fd.IsList() && !fd.IsMap() && fd.Message().Fields().Len() > 0 && s.r.Intn(3) == 0 {
-			sub := fd.Message().Fields()
-			paths[i] = p + "." + string(sub.Get(s.r.Intn(sub.Len())).Name())
-		}
+	if nested {
+		paths = s.g.ReadMaskPaths(md, 2)
 	}
 	return &fieldmaskpb.FieldMask{Paths: paths}
 }
@@ -422,7 +429,7 @@ func (s *session) doUpdate() {
 	payload := s.g.Message(newMsg(s.t.resource).Type())
 	stripTweens(payload.ProtoReflect())
 	req.Set(pf, protoreflect.ValueOfMessage(payload.ProtoReflect()))
-	um := s.randMask(s.t.resource, 50)
+	um := s.randMask(s.t.resource, 50, false)
 	if um != nil && len(um.Paths) == 0 {
 		um = nil
 	}
@@ -468,6 +475,7 @@ func (s *session) doUpdate() {
 // recvOne handles one message that arrived on stream i.
 func (s *session) recvOne(i int, m streamMsg) {
 	st := s.streams[i]
+	st.lastSeen = m.val
 	s.trace = append(s.trace, stepDesc{s.step, fmt.Sprintf("stream#%d recv", i), fmt.Sprintf("name=%q %s", m.name, txt(m.val))})
 	v := "ok"
 	for len(st.queue) > 0 && !st.queue[0].must && !proto.Equal(st.queue[0].val, m.val) {
@@ -543,11 +551,13 @@ func firstMust(q []expect) proto.Message {
 }
 
 func (s *session) doPull() {
+	s.doPullWith(s.randMask(s.t.resource, 50, true), s.r.Intn(3) == 0)
+}
+
+func (s *session) doPullWith(mask *fieldmaskpb.FieldMask, uo bool) {
 	req := newMsg(s.t.pull.Input())
 	setStr(req, "name", devName)
-	mask := s.randMask(s.t.resource, 50)
 	setMask(req, "read_mask", mask)
-	uo := s.r.Intn(3) == 0
 	if fd := req.Descriptor().Fields().ByName("updates_only"); fd != nil {
 		req.Set(fd, protoreflect.ValueOfBool(uo))
 	}
@@ -613,7 +623,16 @@ func (s *session) doPull() {
 		uoi = 1
 	}
 	s.obs(fmt.Sprintf("open %d %d", s.maskID(mask), uoi), "ok")
-	s.drainSeed(len(s.streams) - 1)
+	if !s.noSeedWait {
+		s.drainSeed(len(s.streams) - 1)
+	}
+}
+
+// openNoWait opens a seeded, unmasked stream and returns without waiting for the seed.
+func (s *session) openNoWait() {
+	s.noSeedWait = true
+	s.doPullWith(nil, false)
+	s.noSeedWait = false
 }
 
 // drainSeed is drain for the stream just opened, with seed-specific failure classes.
@@ -734,7 +753,7 @@ func runSession(t triple, sid sessionID, mon *lib.Monitor) (lines, verdicts []st
 				s.doUpdate()
 			}
 		case x < 14:
-			s.doGet(s.randMask(s.t.resource, 40))
+			s.doGet(s.randMask(s.t.resource, 40, true))
 		case x < 18:
 			if s.openCount() < 2 {
 				s.doPull()
@@ -866,3 +885,5 @@ func (s *session) doPoke() {
 	s.obs(fmt.Sprintf("updok %d", s.id(got)), "ok")
 	s.drain(true)
 }
+
+func ctxBg() context.Context { return context.Background() }
